@@ -7,7 +7,7 @@
 From hls Require Import Base Float Lex Kinds Types Tags Line Keys Media.
 From hls.Generated Require Import Tables.
 From hls Require Import Master.
-From hls.Proofs Require Import Build Lexical Values TextLines AttrText TagText TagTextMedia TagTextVariant TagTextSegment TagTextDateRange Sweep SweepFloat SweepAll.
+From hls.Proofs Require Import Build Lexical Values TextLines AttrText TagText TagTextMedia TagTextVariant TagTextSegment TagTextDateRange Sweep SweepFloat SweepAll FloatRound.
 Open Scope N_scope.
 
 Theorem C18_uint : forall w n, n < 2 ^ w -> parse_uint w (print_uint n) = Some n.
@@ -215,6 +215,26 @@ Proof. exact time_offset_sweep. Qed.
 Check C18_time_offset_sweep : forall n, n <= 3000 ->
   float_rt (f32_of_dec false n (-1)) = true /\ float_rt (f32_of_dec true n (-1)) = true.
 Print Assumptions C18_time_offset_sweep.
+
+(* two steps towards the unbounded float statements, proved for every format and every rational: the rounding the modelled
+   parser applies (Model/Float.v rnd_pos: exponent from a log2 estimate, floor, round-half-even, renormalisation) depends on
+   the VALUE n/d only, not on how numerator and denominator are written (so "1.50", "1.5" and "15e-1" cannot round
+   differently), and every representable value — normal or subnormal — is a fixed point (so an exactly printed value reads
+   back as itself).  Still open for the unbounded statements: that the shortest-digits search always ends within 17 (9)
+   digits, and the text layer of the number grammar. *)
+Theorem C18_rounding_by_value : forall f neg n d n' d', (0 < prec f)%Z -> (0 < n)%Z -> (0 < d)%Z -> (0 < n')%Z -> (0 < d')%Z -> (n * d' = n' * d)%Z ->
+  rnd_pos f neg n d = rnd_pos f neg n' d'.
+Proof. exact rnd_pos_ratio. Qed.
+Check C18_rounding_by_value : forall f neg n d n' d', (0 < prec f)%Z -> (0 < n)%Z -> (0 < d)%Z -> (0 < n')%Z -> (0 < d')%Z -> (n * d' = n' * d)%Z ->
+  rnd_pos f neg n d = rnd_pos f neg n' d'.
+Print Assumptions C18_rounding_by_value.
+
+Theorem C18_representable_exact : forall f neg m e, (0 < prec f)%Z -> canonical f m e ->
+  rnd_pos f neg (fst (rat_of m e)) (snd (rat_of m e)) = FFin neg m e.
+Proof. exact rnd_pos_fixpoint. Qed.
+Check C18_representable_exact : forall f neg m e, (0 < prec f)%Z -> canonical f m e ->
+  rnd_pos f neg (fst (rat_of m e)) (snd (rat_of m e)) = FFin neg m e.
+Print Assumptions C18_representable_exact.
 
 Example C18_float_hypotheses :
   forallb (fun s => match parse_float s with Ok x => float_rt x | _ => false end)
